@@ -442,7 +442,17 @@ def const_value(idx, mod, node, _depth=0):
     if isinstance(node, ast.BinOp) and isinstance(node.op, ast.Add):
         left = const_value(idx, mod, node.left, _depth + 1)
         right = const_value(idx, mod, node.right, _depth + 1)
+        if isinstance(left, (tuple, list)) and isinstance(right,
+                                                          (tuple, list)):
+            return tuple(left) + tuple(right)
         return left + right
+    if isinstance(node, ast.Attribute):
+        owner = idx.resolve_name(mod, node.value)
+        if isinstance(owner, ClassInfo):
+            res = idx.find_attr(owner, node.attr)
+            if res is not None and isinstance(
+                    res[1], (ast.Tuple, ast.List, ast.BinOp, ast.Dict)):
+                return const_value(idx, res[0].module, res[1], _depth + 1)
     if isinstance(node, (ast.Name, ast.Attribute)):
         return ast.unparse(node)
     raise AnalysisError(f"not a constant: {ast.unparse(node)[:60]}")
